@@ -99,6 +99,91 @@ func lxSpell(r *rand.Rand, s *lxSet) {
 	}
 }
 
+// lxEmptyPattern is a pattern that matches (only or also) the empty string.
+type lxEmptyPattern struct {
+	Pat  string
+	Defs map[string]string
+}
+
+// lxEmptyPatterns: rules that accept empty text in every spelling of "nothing" - an empty
+// group, a zero repetition, an empty named pattern - and the usual nullable shapes. A lexer with
+// such a rule could return tokens of length zero, so either lex.Compile rejects the rule or
+// no scan may ever return an empty token.
+var lxEmptyPatterns = []lxEmptyPattern{
+	{Pat: ``}, {Pat: `()`}, {Pat: `(?:)`}, {Pat: `(())`}, {Pat: `()()`}, {Pat: `x{0}`}, {Pat: `x{0,0}`}, {Pat: `[a-z]{0}()`}, {Pat: `(ab|c){0}`},
+	{Pat: `(?i)`}, {Pat: `(?i:)`}, {Pat: `\Q\E`},
+	{Pat: `{opt}`, Defs: map[string]string{"opt": `()`}}, {Pat: `({opt})`, Defs: map[string]string{"opt": `(){0}`}}, {Pat: `{opt}{opt}`, Defs: map[string]string{"opt": `x{0}`}},
+	{Pat: `{a}`, Defs: map[string]string{"a": `{b}`, "b": `()`}},
+	// shapes that keep an instruction: rejected through another path
+	{Pat: `(|)`}, {Pat: `a*`}, {Pat: `a?`}, {Pat: `()*`}, {Pat: `(a|)`}, {Pat: `x{0,2}`}, {Pat: `(a*)+`}, {Pat: `{opt}?`, Defs: map[string]string{"opt": `a`}},
+}
+
+// c09EmptyRules: every empty pattern next to an ordinary rule, in all four modes.
+func c09EmptyRules(c *fw.Ctx) {
+	for _, ep := range lxEmptyPatterns {
+		for mode := 0; mode < 4; mode++ {
+			m := rx.Mode{Bytes: mode&1 != 0, Fold: mode&2 != 0}
+			opts := lex.CharsetOptions{Fold: m.Fold, ScanBytes: m.Bytes}
+			desc := fmt.Sprintf("mode %+v\nrule 0: /%s/ action=2\nrule 1: /[a-z]+/ action=3\npatterns: %v\n", m, ep.Pat, ep.Defs)
+			files := map[string]string{"rules.txt": desc}
+			res := lxResolver{}
+			var names []string
+			for n := range ep.Defs {
+				names = append(names, n)
+			}
+			sort.Strings(names)
+			bad := false
+			for _, n := range names {
+				re, err := lex.ParseRegexp(ep.Defs[n], opts)
+				if err != nil {
+					c.Violate("parse/valid-pattern-rejected/"+fw.Skeleton(err.Error()), err.Error()+"\n"+desc, files)
+					bad = true
+					break
+				}
+				res[n] = &lex.Pattern{Name: n, RE: re, Text: ep.Defs[n], Origin: lxNode(n)}
+			}
+			if bad {
+				continue
+			}
+			var rules []*lex.Rule
+			for i, pat := range []string{ep.Pat, "[a-z]+"} {
+				re, err := lex.ParseRegexp(pat, opts)
+				if err != nil {
+					c.Violate("parse/valid-pattern-rejected/"+fw.Skeleton(err.Error()), err.Error()+"\n"+desc, files)
+					bad = true
+					break
+				}
+				name := fmt.Sprintf("rule%d", i)
+				rules = append(rules, &lex.Rule{Pattern: &lex.Pattern{Name: name, RE: re, Text: pat, Origin: lxNode(name)}, Resolver: res,
+					StartConditions: []int{0}, Action: 2 + i, Origin: lxNode(name)})
+			}
+			if bad {
+				continue
+			}
+			c.Note(files)
+			var tables *lex.Tables
+			var cerr error
+			if !c.Guard("compile", files, func() { tables, cerr = lex.Compile(rules, m.Bytes, true) }) {
+				continue
+			}
+			c.Count("empty_pattern_rule_sets", 1)
+			if cerr != nil {
+				c.Count("empty_pattern_rule_sets_rejected", 1)
+				continue
+			}
+			c.Count("empty_pattern_rule_sets_compiled", 1)
+			for _, text := range []string{"", "ab", "1", "ab 1", " ", "x"} {
+				size, action := tables.Scan(0, text)
+				c.Eval(1)
+				if size == 0 && action != 0 {
+					c.Violate("scan/empty-token-returned", fmt.Sprintf("text %q: Tables.Scan = (size 0, action %d): a token of length zero (lex.Compile accepted a rule that matches the empty string)\n%s", text, action, desc), files)
+					break
+				}
+			}
+		}
+	}
+}
+
 func lxTail(g *rx.Gen, r *rand.Rand) *rx.Node {
 	n := 2 + r.Intn(2)
 	var subs []*rx.Node
@@ -668,6 +753,9 @@ func init() {
 			if c.Tier == "thorough" {
 				n, texts, exh = 25, 1000, 5
 			}
+			if c.Case == 0 {
+				c09EmptyRules(c)
+			}
 			for i := 0; i < n; i++ {
 				c09RuleSet(c, c.SubRand(i), texts, exh)
 			}
@@ -680,7 +768,7 @@ func init() {
 		},
 		RequiredCounters: []string{"compiled_ok", "scans_match", "scans_invalid_token", "scans_invalid_token_nonempty_extent", "scans_fallback_to_earlier_accept",
 			"tables_with_backtrack", "ambiguity_rejected_with_witness", "rulesets_bytes", "rulesets_fold", "rulesets_multi_sc", "rulesets_named",
-			"rulesets_nested_bounds", "rulesets_nonbacktracking", "texts_invalid_utf8"},
+			"rulesets_nested_bounds", "rulesets_nonbacktracking", "texts_invalid_utf8", "empty_pattern_rule_sets_rejected"},
 		CPUBudget: 600,
 	})
 }
